@@ -10,6 +10,7 @@ import (
 	sdkmath "cosmossdk.io/math"
 
 	"github.com/EscanBE/evermint/v12/utils"
+	authtypes "github.com/cosmos/cosmos-sdk/x/auth/types"
 	govtypes "github.com/cosmos/cosmos-sdk/x/gov/types"
 	"github.com/ethereum/go-ethereum/common"
 	ethtypes "github.com/ethereum/go-ethereum/core/types"
@@ -70,6 +71,26 @@ func (k *Keeper) EthereumTx(goCtx context.Context, msg *evmtypes.MsgEthereumTx) 
 	response, err := k.ApplyTransaction(ctx, ethTx)
 	if err != nil {
 		return nil, errorsmod.Wrap(err, "failed to apply transaction")
+	}
+
+	if k.IsSenderPaidTxFeeInAnteHandle(ctx) && ethTx.Gas() > response.GasUsed {
+		// The AnteHandle moved the fee for the full gas limit to the fee collector, then the state transition
+		// credited the unused gas back to the sender by minting through the EVM module account.
+		// Take the refunded amount out of the fee collector and burn it, so the refund does not inflate the total supply
+		// and the fee collector keeps exactly the fee for the gas used.
+		refundedFee := new(big.Int).Mul(
+			new(big.Int).SetUint64(ethTx.Gas()-response.GasUsed),
+			evmutils.EthTxEffectiveGasPrice(ethTx, k.feeMarketKeeper.GetBaseFee(ctx)),
+		)
+		if refundedFee.Sign() > 0 {
+			refundedCoins := sdk.NewCoins(sdk.NewCoin(k.GetParams(ctx).EvmDenom, sdkmath.NewIntFromBigInt(refundedFee)))
+			if err := k.bankKeeper.SendCoinsFromModuleToModule(ctx, authtypes.FeeCollectorName, evmtypes.ModuleName, refundedCoins); err != nil {
+				return nil, errorsmod.Wrap(err, "failed to take the refunded fee out of the fee collector")
+			}
+			if err := k.bankKeeper.BurnCoins(ctx, evmtypes.ModuleName, refundedCoins); err != nil {
+				return nil, errorsmod.Wrap(err, "failed to burn the refunded fee")
+			}
+		}
 	}
 
 	defer func() {
